@@ -1,7 +1,7 @@
 /* C13 sequential differential probe: real _defer_rcu / rcu_defer_barrier_thread of src/urcu-defer-impl.h (inside src/urcu.c)
    with a small ring (hook URCU_VERIF_DEFER_QUEUE_SIZE) and the deferred call recorded instead of executed (hook
    URCU_VERIF_DEFER_CALL), so that arbitrary function/argument bit patterns can be queued.  Prints one line per operation:
-   "E f p" / "B", the calls made by that operation, and the whole queue state.  The same operations are run by the Coq model. */
+   "E f p" / "B", the calls made by that operation, and the whole queue state (argv[4]: initial value of head and tail, to run across the 2^64 wrap-around).  The same operations are run by the Coq model. */
 #include <stdio.h>
 #include <stdint.h>
 #include <stdlib.h>
@@ -27,6 +27,7 @@ int main(int argc, char **argv){
   rcu_register_thread();
   URCU_TLS(defer_queue).q = calloc(DEFER_QUEUE_SIZE, sizeof(void *));
   printf("SIZE %d\n", (int)DEFER_QUEUE_SIZE);
+  if (argc > 4) { unsigned long st = strtoull(argv[4], 0, 0); URCU_TLS(defer_queue).head = URCU_TLS(defer_queue).tail = st; printf("START %lu\n", st); }   /* free-running counters start just below the wrap-around */
   uint64_t lastf = F[0];
   for (long i = 0; i < n; i++) {
     uint64_t r = rnd();
